@@ -33,6 +33,10 @@ func genC18(t *rapid.T) E1Case {
 					op.Sizes[k] = op.Sizes[k] % 11
 				}
 			}
+			if nw == 1 && rapid.IntRange(0, 3).Draw(t, "readfrom") == 0 { // single writer only: other writers would interleave with the chunks (C09)
+				// a streamed reader: several low-level writes; the second or third one may find the queue full
+				op = E1Op{Op: "readfrom", Sizes: []int{rapid.SampledFrom([]int{1500, 3000, 4096}).Draw(t, "rfsize")}, N: rapid.SampledFrom([]int{700, 1024, 4096}).Draw(t, "rfstep")}
+			}
 			if (op.Op == "writev" || op.Op == "ctxwritev") && rapid.IntRange(0, 5).Draw(t, "bigvec") == 0 {
 				// a vector beyond the largest pooled size class (65536): all of it is accepted, or none of it
 				op.Sizes = rapid.SampledFrom([][]int{{40000, 30000}, {30000, 10000, 30000}, {65536, 1}, {20000, 20000, 20000, 20000}}).Draw(t, "bigsizes")
@@ -83,6 +87,16 @@ func runC18(c E1Case) (out core.Outcome) {
 					out.Violation = core.Viol("C18/blocking-call-stuck-with-room", "%s resumed with room or a finished context (full=%v ctxdone=%v chandone=%v) did not return: %s", td.call.Op.Op, td.call.FullThen, td.call.CtxDoneThen, td.call.ChanDoneThen, r.incon)
 				}
 				return
+			}
+		}
+		// a non-blocking call that keeps coming back to the enqueue point instead of returning is waiting for space by polling
+		if nonblocking && strings.Contains(r.incon, "step bound") {
+			for _, t := range r.tasks {
+				td, _ := t.Data.(*e1TaskData)
+				if td != nil && td.call != nil && td.call.End == 0 && !t.Done() && t.Visits["enqueue.before"] > 100 {
+					out.Violation = core.Viol("C18/nonblocking-call-blocked", "%s in non-blocking mode has tried to enqueue %d times without returning (the sender is stalled): it waits for queue space", td.call.Op.Op, t.Visits["enqueue.before"])
+					return
+				}
 			}
 		}
 		out.Inconclusive = r.incon
@@ -182,6 +196,15 @@ func runC18(c E1Case) (out core.Outcome) {
 		if w.End == 0 {
 			out.Violation = core.Viol("C18/writer-never-returned", "%s (call #%d) never returned although the sender ran to completion afterwards (parked: %v)", w.Op.Op, w.ID, r.stuck())
 			return
+		}
+		if w.Op.Op == "readfrom" {
+			// several low-level writes in one call: the recorded queue state is that of its last attempt only, and a
+			// refusal leaves the leading chunks on the wire (the stream parser accepts that). Judged here: it returned.
+			r.cls.Add("readfrom:%s", c.Kind)
+			if errors.Is(w.Err, netty.ErrAsyncNoSpace) {
+				r.cls.Add("readfrom-refused-midway")
+			}
+			continue
 		}
 		if !w.SawEnqueue {
 			// returned before the enqueue point; nothing else ran since the call began
